@@ -3,7 +3,7 @@
   About Model/Engine.lean: `handle_pubrec`, the packet choice in `service_queue_aux`, the DUP handling in
   `handle_network_event_connection_closed` and `apply_session_present_to_connection` (protocol.rs).
 -/
-import GV.Proofs.EngineBasics
+import GV.Proofs.EngineWF
 namespace GV.Props.C04
 open GV
 
@@ -26,9 +26,19 @@ theorem after_pubrec_only_pubrel (e : Engine) (a : Ack) (opId : Nat) (o : Op) (p
 /-- a failing PUBREC ends the delivery: the operation completes with it and nothing more is sent for it -/
 theorem failing_pubrec_completes (e : Engine) (a : Ack) (opId : Nat) (o : Op) (p : Publish)
     (hs : stateBlocksAcks e.state = false) (hl : e.pendingPub.lookup a.packetId = some opId)
-    (ho : e.op? opId = some o) (hp : o.packet = .publish p) (hq : p.qos = 2) (hrc : a.reasonCode ≥ 128) :
+    (ho : e.op? opId = some o) (hp : o.packet = .publish p) (hq : p.qos = 2) (hrc : a.reasonCode ≥ 128)
+    (hnc : e.current ≠ some opId) :
     e.handlePubrec a = e.completeSuccess opId (some (.pubrec a.packetId a.reasonCode)) := by
-  simp [Engine.handlePubrec, hs, hl, ho, hp, hq, hrc]
+  have : (e.current == some opId) = false := by simpa using hnc
+  simp [Engine.handlePubrec, hs, hl, ho, hp, hq, hrc, this]
+
+/-- ... but not while the PUBREL of that operation is being written: completing it then would pull the packet from under
+    the encoder, so the (non-conformant) PUBREC is answered with a protocol error and the operation stays as it is -/
+theorem failing_pubrec_during_pubrel_write_is_an_error (e : Engine) (a : Ack) (opId : Nat) (o : Op) (p : Publish)
+    (hs : stateBlocksAcks e.state = false) (hl : e.pendingPub.lookup a.packetId = some opId)
+    (ho : e.op? opId = some o) (hp : o.packet = .publish p) (hq : p.qos = 2) (hrc : a.reasonCode ≥ 128)
+    (hc : e.current = some opId) : e.handlePubrec a = (e, .err "ProtocolError") := by
+  simp [Engine.handlePubrec, hs, hl, ho, hp, hq, hrc, hc]
 
 /-- **The first transmission has DUP = 0 and a retransmission DUP = 1 with everything else unchanged**: setting
     the flag changes only the flag. -/
@@ -70,5 +80,29 @@ theorem written_publish_waits_for_ack (e : Engine) (id : Nat) (o : Op) (p : Publ
   refine ⟨_, rfl, ?_⟩
   simp only [Engine.startAckTimeout]
   split <;> simp [Engine.setOp, lookup_mapInsert_self]
+
+end GV.Props.C04
+
+namespace GV.Props.C04
+open GV
+
+/-! ### every history -/
+
+/-- **A PUBREL belongs to a delivery in progress.**  After any history: an operation that holds a PUBREL (its PUBREC was
+    received) is either still in the pending-publish table of this connection or marked DUP for retransmission on a
+    resumed session; whatever waits in the high-priority queue as a publish holds a PUBREL (a PUBLISH is never queued
+    there), and a queued PUBREL belongs to an operation that is still pending. -/
+theorem pubrel_belongs_to_a_delivery_in_progress (cfg : Config) (evs : List Event) (id : Nat) (o : Op)
+    (h : (runEvents (Engine.new cfg) evs).1.ops.lookup id = some o) :
+    (o.pubrel.isSome = true → pktDup o.packet = true ∨ id ∈ vals (runEvents (Engine.new cfg) evs).1.pendingPub) ∧
+    (id ∈ (runEvents (Engine.new cfg) evs).1.highQ → isAckedPublish o.packet = true → o.pubrel.isSome = true) ∧
+    (id ∈ (runEvents (Engine.new cfg) evs).1.highQ → o.pubrel.isSome = true → id ∈ vals (runEvents (Engine.new cfg) evs).1.pendingPub) := by
+  have b := (inv_after cfg evs).2.1
+  refine ⟨?_, fun hi hk => b.h2 id hi o h hk, fun hi hp => b.pr2 id hi o h hp⟩
+  intro hp
+  rcases b.pr id o h hp with a | a | a
+  · exact .inl a
+  · exact .inr a
+  · cases a
 
 end GV.Props.C04
